@@ -8,6 +8,7 @@ import Scico.Proofs.DriverSeq
 import Scico.Proofs.DriverCtl
 import Scico.Proofs.DriverMore
 import Scico.Proofs.DriverDisp
+import Scico.Proofs.DriverClock
 
 namespace Scico.Props.C15
 open Scico.Driver Scico.Driver.Spec
@@ -273,6 +274,41 @@ theorem C15_field_tables (c : OptClass) (sv : AdmmSolver) (obj : Bool) :
 
 example : itstatFuncSource ((fieldSpecs .pgm .other true).map (·.attrib)) =
     "def itstat_func(obj): return(obj.itnum, obj.timer.elapsed(), obj.objective(), obj.L, obj.norm_residual())" := by
+  decide
+
+
+/-- **The interval timer over an arbitrary clock.**  With clock values in ANY additive commutative
+    group `τ` (ℤ, ℚ, ℝ — the idealisation of the floats `timeit.default_timer()` returns), for every
+    configuration and every sequence of `start/stop/reset` calls (all argument forms, `KeyError`s
+    with partial mutation), `Timer.elapsed(label, total)` is what the history-based stop-watch
+    `Clock.specElapsed` prescribes: the sum of the lengths of the gaps — between consecutive events
+    the label received since its last reset, and from the last event to the query time — that begin
+    with a `start`; `total=False`: the time since the first `start` of the trailing run of
+    `start`s; a call raises `KeyError` exactly when the specification says so.  No hypothesis on
+    the order of the clock values is needed for the equality; on a non-decreasing ordered clock
+    every gap is a duration and the reading is never negative. -/
+theorem C15_timer_refines_stopwatch_clock {L τ : Type} [DecidableEq L] [AddCommGroup τ]
+    (c : Cfg L) (h : List (Clock.Call L τ)) (now : τ) (label : Option L) (total : Bool) (k : Clock.Call L τ) :
+    ((Clock.Timer.init c.init c.dflt c.all).run h).elapsed label total now =
+        Clock.specElapsed c h label total now ∧
+      (((Clock.Timer.init c.init c.dflt c.all).run h).apply k).2 = !(Clock.raisesKey c h k) :=
+  ⟨Clock.timer_refines_stopwatch c h now label total, Clock.timer_keyerror c h k⟩
+
+theorem C15_timer_clock_nonneg {L τ : Type} [DecidableEq L] [AddCommGroup τ] [LinearOrder τ]
+    [IsOrderedAddMonoid τ] (c : Cfg L) (h : List (Clock.Call L τ)) (now : τ) (hm : Clock.Monotone h now) (l : L) :
+    0 ≤ Clock.specTotal (Clock.labelHistory c h l) now :=
+  Clock.specTotal_nonneg c h now hm l
+
+-- non-vacuity at τ = ℤ with a clock that starts below zero: label 1 runs over [-5,-2] and from 4 on, is
+-- reset at 1 (so only the second interval counts); label 2 never existed
+example :
+    let c : Cfg Nat := ⟨.one 1, 0, 9⟩
+    let h : List (Clock.Call Nat Int) :=
+      [⟨-5, .start, .one 1⟩, ⟨-2, .stop, .many [1, 7]⟩, ⟨1, .reset, .one 9⟩, ⟨4, .start, .many [1, 0]⟩, ⟨6, .start, .one 1⟩]
+    Clock.specElapsed c h (some 1) true 10 = some 6 ∧ Clock.specElapsed c h (some 1) false 10 = some 6 ∧
+      Clock.specElapsed c h none true 10 = some 6 ∧ Clock.specElapsed c h (some 2) true 10 = none ∧
+      Clock.specTotal (Clock.labelHistory c (h.take 2) 1) 0 = 3 ∧
+      ((Clock.Timer.init c.init c.dflt c.all).run h).elapsed (some 1) true 10 = some 6 := by
   decide
 
 /-! ## `solve()` -/
